@@ -565,7 +565,17 @@ func (c *genCtx) trap(depth int, nn bool) *Expr {
 	if c.draw(0, 9, "plusfirst") == 0 {
 		kind = 11
 	}
+	if c.draw(0, 11, "nonemptycommit") == 0 {
+		kind = 12
+	}
 	switch kind {
+	case 12:
+		// a choice inside a (...)! group (or a plain group) that commits at small lookahead, next to an alternative
+		// that would take the same tokens: ( ( bad | base )! | any+ )
+		inner := Group(rapid.SampledFrom([]string{"!", "!", ""}).Draw(c.t, "commitmod"), Alt(bad, base))
+		inner.Style = c.draw(0, 5, "gstyle")
+		any := Alt(Ref("Ident"), Ref("Int"), Lit(";"), Lit("+"), Lit("-"), Lit("("), Lit(")"))
+		return Alt(inner, Group("+", Cap(any)))
 	case 11:
 		// a + group whose first iteration fails after its first term, first thing inside an optional / repeated
 		// group (or bare), followed by a tail that takes the same tokens: ( ( @a b )+ )? @a*
